@@ -156,7 +156,25 @@ def closure_maker(x):
     return inner_fn
 
 
+class SpyStr(str):
+    """A str subclass whose hashing / equality are user code (dict keys of this class pass the all-string-keys test of TypedDict inference)."""
+    def __hash__(self):
+        JOURNAL.append(("str.__hash__",))
+        return str.__hash__(self)
+
+    def __eq__(self, other):
+        JOURNAL.append(("str.__eq__",))
+        return str.__eq__(self, other)
+
+
+def _spy_str_dict():
+    d = {SpyStr("a"): 1, SpyStr("b"): "x"}
+    del JOURNAL[:]          # building the workload itself hashes the keys: not the tracer's doing
+    return d
+
+
 WORKLOADS = {
+    "spy-str-keys": _spy_str_dict, "spy-str-keys-nested": lambda: [_spy_str_dict()],
     "spy-dict-keys": lambda: {Spy("key"): 1, FakeClass(): 2},
     "spy": lambda: Spy("s"), "fake-class": FakeClass, "lazy-prop": LazyProp, "spy-list": lambda: SpyList([1, 2]), "spy-dict": lambda: SpyDict(a=1),
     "spy-set": lambda: SpySet({1}), "spy-tuple": lambda: SpyTuple((1, 2)), "with-meta": WithMeta, "meta-class-object": lambda: WithMeta,
